@@ -24,6 +24,16 @@ def concStoreLine (st : CsRun) (lineNo : Nat) (line : String) : Except String (C
       (if n "dropped_pinned" == 0 then [] else [s!"PROPFAIL C12 pinned_not_dropped {tag}"]) ++
       (if n "max_cond_waiting" ≤ 1 then [] else [s!"PROPFAIL C11 refreshes_coalesced {tag}"]) ++
       (if n "lookup_fail" == 0 then [] else [s!"PROPFAIL C16 concurrent_lookup_gets_handle {tag}", s!"PROPFAIL C12 concurrent_lookup_gets_handle {tag}"]) ++
+      (if ((lookup fs "stale_after_refresh").getD "0").toInt?.getD 0 ≤ 0 then [] else
+        [s!"PROPFAIL C11 poll_ok_fresh {tag} (a handle yields an old version after a successful refresh)",
+         s!"PROPFAIL C12 later_calls_see_completed_poll {tag}",
+         s!"PROPFAIL C16 polled_like_any_other {tag}"]) ++
+      (if n "late_flight_fail" == 0 then [] else [s!"PROPFAIL C16 concurrent_lookup_gets_handle {tag} (late second flight)"]) ++
+      (if n "lookup_panics" == 0 then [] else [s!"PROPFAIL C16 concurrent_lookup_gets_handle {tag} (a lookup panicked)", s!"PROPFAIL C12 handle_never_panics {tag} (a lookup panicked)"]) ++
+      (if n "cu_stale_get" == 0 then [] else [s!"PROPFAIL C15 next_get_sees_newest {tag}"]) ++
+      (if ((lookup fs "cu_final").getD "2") == "2" then [] else [s!"PROPFAIL C15 no_lost_update {tag} (quiescent Get after two installs)"]) ++
+      (if n "cu_cur_closed" == 0 then [] else [s!"PROPFAIL C15 current_never_closed {tag}"]) ++
+      (if n "cu_multi_close" == 0 then [] else [s!"PROPFAIL C15 closed_exactly_once {tag}"]) ++
       (if n "upd_bad" == 0 && n "upd_nonmono" == 0 then [] else [s!"PROPFAIL C15 concurrent_get {tag}"]) ++
       (if n "windows" > 0 then [] else [s!"DIVERGE concstore_no_window {tag}"])
     .ok ({ st with cases := st.cases + 1, fails := st.fails + outs.length,
